@@ -25,6 +25,30 @@ let rec collect_pv (items : Sx.t list) acc =
     | "sub" -> collect_pv (Sx.args (Stdlib.List.hd (Sx.args it))) acc
     | _ -> acc) acc (match items with _ :: t -> t | [] -> [])
 
+(* sort data of the final sort (stream `order`): `(x-ord n)` / `(x-heading xH)` on an arg -> (IdArg id, (heading, order));
+   `(x-ord n)` on a subcommand -> (IdCmd name, (None, order)) *)
+let rec collect_ord (items : Sx.t list) acc =
+  match items with
+  | [] -> acc
+  | _ :: rest ->
+    Stdlib.List.fold_left (fun acc it ->
+      match Sx.head it with
+      | "arg" ->
+        let l = Sx.args it in
+        let id = bs (Stdlib.List.hd l) in
+        let ord = Stdlib.List.fold_left (fun o x -> if Sx.head x = "x-ord" then Some (n_of_z (Sx.num (Stdlib.List.hd (Sx.args x)))) else o) None (Stdlib.List.tl l) in
+        let hd = Stdlib.List.fold_left (fun o x -> if Sx.head x = "x-heading" then Some (bs (Stdlib.List.hd (Sx.args x))) else o) None (Stdlib.List.tl l) in
+        (match ord, hd with
+         | None, None -> acc
+         | _ -> acc @ [(EngineModel.IdArg id, (hd, (match ord with Some n -> n | None -> n_of_z (Z.of_int 999))))])
+      | "sub" ->
+        let sub = Sx.args (Stdlib.List.hd (Sx.args it)) in
+        let name = bs (Stdlib.List.hd sub) in
+        let ord = Stdlib.List.fold_left (fun o x -> if Sx.head x = "x-ord" then Some (n_of_z (Sx.num (Stdlib.List.hd (Sx.args x)))) else o) None (Stdlib.List.tl sub) in
+        let acc = (match ord with Some n -> acc @ [(EngineModel.IdCmd name, (None, n))] | None -> acc) in
+        collect_ord sub acc
+      | _ -> acc) acc rest
+
 let show_cres (r : EngineModel.cres) : string =
   match r with
   | EngineModel.CPanic site -> "PANIC site " ^ Z.to_string (z_of_n site)
@@ -49,6 +73,17 @@ let run_dyn (a : Sx.t list) : string =
     show_cres (EngineModel.complete_model tbl c argv (n_of_z (Sx.num idx)))
   | _ -> "badcase"
 
+(* `(dynorder ...)`: [complete_model_ord] - the candidates in the order of the final stable sort *)
+let run_order (a : Sx.t list) : string =
+  match a with
+  | cmd :: argv :: idx :: _ ->
+    let c = build_cmd (Sx.args cmd) in
+    let tbl = collect_pv (Sx.args cmd) [] in
+    let ot = collect_ord (Sx.args cmd) [] in
+    let argv = Stdlib.List.map bs (Sx.args argv) in
+    show_cres (EngineOrder.complete_model_ord ot tbl c argv (n_of_z (Sx.num idx)))
+  | _ -> "badcase"
+
 (* `(dynstate ...)`: where the shadow parse stands when complete_arg is called (coverage matrix) *)
 let run_state (a : Sx.t list) : string =
   match a with
@@ -58,7 +93,7 @@ let run_state (a : Sx.t list) : string =
     (match EngineModel.build_full (EngineModel.build_fuel c) c with
      | EngineModel.BOk b ->
        (match EngineModel.start_walk b argv (n_of_z (Sx.num idx)) with
-        | EngineModel.WAt (_, cur, _, st, esc) ->
+        | EngineModel.WAt (_, cur, _, st, esc, _) ->
           "at " ^ hex cur.Cmd.c_name ^ " " ^ show_state st ^ (if esc then " escaped" else " plain")
         | EngineModel.WEnd -> "end"
         | EngineModel.WPanic s -> "panic " ^ Z.to_string (z_of_n s)
@@ -75,6 +110,7 @@ let () =
         let sx = Sx.parse line in
         match Sx.head sx with
         | "dyn" | "dynaccept" -> run_dyn (Sx.args sx)
+        | "dynorder" -> run_order (Sx.args sx)
         | "dynstate" -> run_state (Sx.args sx)
         | m -> "unknown-mode " ^ m
       with e -> "driver-error " ^ Printexc.to_string e in
